@@ -152,7 +152,7 @@ end base
 theorem mailboxClose_track {T T' : Sys → Prop} (hT : ClosedBase T) (hT' : ClosedBase T')
     (hconns' : ∀ s cs, T' s → T' { s with conns := cs }) (hsub : ∀ s, T s → T' s)
     {app mb side : String} {mood : Option String} {t : Time}
-    (hcs : ∀ s1, T s1 → s1.db.HasMb app mb → T (s1.modDb (·.closeSide mb side mood)))
+    (hcs : ∀ s1, T s1 → s1.db.HasBox app mb → T (s1.modDb (·.closeSide mb side mood)))
     (hdel : ∀ s1, T' s1 → (s1.db.mbSidesOf mb).any (·.opened) = false →
       T' (s1.modDb (fun d => d.closeDeletes app mb)))
     {s : Sys} (h : T s) : T' (s.mailboxClose app mb side mood t).1 := by
@@ -452,7 +452,7 @@ end growC
 theorem handleClose_track {T T' : Sys → Prop} (hT : ClosedC T) (hT' : ClosedBase T')
     (hconns' : ∀ s cs, T' s → T' { s with conns := cs }) (hsub : ∀ s, T s → T' s)
     (x : Conn) (app side : String) (t : Time) (m : Option String) (mood : Option String)
-    (hcs : ∀ tgt, x.closeTarget m = some tgt → ∀ s1, T s1 → s1.db.HasMb app tgt →
+    (hcs : ∀ tgt, x.closeTarget m = some tgt → ∀ s1, T s1 → s1.db.HasBox app tgt →
       T (s1.modDb (·.closeSide tgt side mood)))
     (hdel : ∀ tgt, x.closeTarget m = some tgt → ∀ s1, T' s1 → (s1.db.mbSidesOf tgt).any (·.opened) = false →
       T' (s1.modDb (fun d => d.closeDeletes app tgt)))
@@ -523,7 +523,7 @@ theorem onMessage_track {T T' : Sys → Prop} (hT : ClosedC T) (hT' : ClosedBase
     (hconns' : ∀ s cs, T' s → T' { s with conns := cs }) (hsub : ∀ s, T s → T' s)
     {s : Sys} (c : Nat) (t : Time) (id : Val) (cmd : Cmd)
     (hcs : ∀ x m mood app tgt, s.findConn c = some x → cmd = .close m mood → x.app = some app →
-      x.closeTarget m = some tgt → ∀ s1, T s1 → s1.db.HasMb app tgt →
+      x.closeTarget m = some tgt → ∀ s1, T s1 → s1.db.HasBox app tgt →
       T (s1.modDb (·.closeSide tgt (x.side.getD "") mood)))
     (hdel : ∀ x m mood app tgt, s.findConn c = some x → cmd = .close m mood → x.app = some app →
       x.closeTarget m = some tgt → ∀ s1, T' s1 → (s1.db.mbSidesOf tgt).any (·.opened) = false →
